@@ -78,7 +78,13 @@ def run(tier, seed, model_ok, spec_ok, replay=None):
     cases, dviol, nd = [], [], 0
     for _ in range(n):
         doc = g.document(4, 4)
+        if g.r.random() < 0.25:
+            doc = g.share(doc)      # the same container object at several positions
         pt = pg.path(doc, mods_p=0.85)
+        if g.r.random() < 0.08:
+            doc, pt = pg.shared_doc_and_path(mods_p=0.85)
+        elif g.r.random() < 0.06:
+            doc, pt = pg.mixed_doc_and_path()
         if pt.mods and g.r.random() < 0.3:
             pt.warm = (copy_value(doc),)     # get_data is called on the path before the modifiers are applied to it
         entry = g.r.choice(["path_raw", "path_data", "data_get_path", "bound_source"])
